@@ -195,11 +195,11 @@ def documents(ctx: Ctx, thorough):
         for rec in recs[::step]:
             docs.append(((c08.schema_xsd(1, kind, "outer", "integer", "attr", "child"),),
                          c08.doc_xml(rec["doc"], "integer", "attr"), f"identity/{kind} {rec['doc']}"))
-    r = ctx.tlc("Validator", "Validator.cfg", constants={"MaxItems": 2}, tag="docs-validator", workers=4)
+    r = ctx.tlc("Validator", "Validator.cfg", constants={"MaxItems": 2, "Double": "FALSE"}, tag="docs-validator", workers=4)
     for rec in r.json_records()[:: (2 if thorough else 9)]:
         docs.append(((vdoc.XSD,), vdoc.render(rec["nodes"]), f"validator {rec['fault']}"))
     r = ctx.tlc("Namespaces", "Namespaces.cfg", tag="docs-ns", workers=4,
-                constants={"Variant": '"sound"', "MaxDepth": 3, "MaxElems": 3, "MaxDecls": 1})
+                constants={"Variant": '"sound"', "MaxDepth": 3, "MaxElems": 3, "MaxDecls": 1, "Family": '"all"'})
     nsdocs = list({json.dumps(x["doc"], sort_keys=True): x["doc"] for x in r.json_records()}.values())
     xs = (c17.xsd("urn:A"), c17.xsd("urn:B"), c17.xsd(""))
     for i, d in enumerate(nsdocs[:: (40 if thorough else 300)]):
